@@ -13,8 +13,9 @@
    NOT modelled: the tail of scanner.rs::generate_hunks (which heuristic the resolver uses, separator coercion) —
    its effect on these occurrences is decided on the real CLI by lib/props/c06.py. *)
 From RN Require Import Base.Bytes Model.StyleDef Model.CaseModel Model.CaseSpec Model.Matcher.
-From RN Require Import Model.ConstraintsDef Model.Constraints.
-From RN Require Import Proofs.StandaloneP Proofs.ConstraintsP.
+From RN Require Import Model.ConstraintsDef Model.Constraints Model.Edits Model.Hunks Model.Compound Model.Enhanced Model.HunkTail.
+From RN Require Import Gen.GenStyles.
+From RN Require Import Proofs.StandaloneP Proofs.ConstraintsP Proofs.HunkTailP1 Proofs.HunkTailP.
 Close Scope N_scope.   (* ConstraintsP opens it; the statements below count in nat *)
 
 (* an occurrence in an enabled visible style is the single match, passes the boundary test, and is mapped
@@ -63,6 +64,79 @@ Theorem C06_boundary_any_context : forall occ dl dr,
   is_boundary (dl ++ occ ++ dr) (length dl) (length dl + length occ) = true.
 Proof. exact StandaloneP.standalone_boundary. Qed.
 
+(* --- the tail of scanner.rs::generate_hunks (Model/HunkTail.v: filters, exact / ambiguous / compound choice, separator
+   coercion at the match's own column, first-letter fix-up, line_before / line_after; tied hunk by hunk to the real
+   scanner).  Oracles: the ambiguity resolver, coercion::apply_coercion (`coercion_fires`), apply_coercion_to_variant,
+   detect_compound_coercion, the exclude-lines regex.  ONE fact is assumed, about apply_coercion only, read off
+   coercion.rs (a container equal to the pattern up to case, after the _ / __ prefix, yields None) and checked on the real
+   function on every run. --------------------------------------------------------------------------------------- *)
+
+(* a multi-word occurrence in a visible style is compatible with exactly that style: the resolver is never consulted *)
+Theorem C06_visible_unambiguous : forall acr ws S,
+  all_neutral acr ws = true -> (2 <= length ws)%nat -> visible S = true ->
+  filter_compatible acr (to_style acr ws S) gen_all_styles = [S] /\
+  is_ambiguous acr (to_style acr ws S) gen_all_styles = false.
+Proof. exact HunkTailP1.visible_unambiguous. Qed.
+
+(* end to end for the standalone occurrence: ANY text before and after it (other identifiers, earlier copies of the same
+   text, other lines) as long as the two neighbouring bytes are not alphanumeric, '_' or '-'; any options that do not
+   exclude it; coercion on or off.  The hunk generate_hunks emits for it carries the replacement in the same style, and
+   applying it rewrites exactly the occurrence. *)
+Theorem C06_standalone_hunk : forall acr resolve coercion_fires coerce_variant compound_note line_excluded o repl
+         defaults amb S0 S1 S sw rw styles dl dr,
+  (forall container old new,
+     lower (strip_us_prefix container) = lower old -> coercion_fires container old new = false) ->
+  wf_acr acr = true -> visible S0 = true -> visible S1 = true -> visible S = true ->
+  (2 <= length sw)%nat -> rw <> [] -> all_neutral acr sw = true -> all_neutral acr rw = true ->
+  In S styles ->
+  hd_is is_ident_char (rev dl) = false -> hd_is is_ident_char dr = false -> head_ok dr = true ->
+  let vm := variant_map_core acr defaults [] [] false amb (to_style acr sw S0) (to_style acr rw S1) (Some styles) in
+  let occ := to_style acr sw S in
+  let new := to_style acr rw S in
+  let c := dl ++ occ ++ dr in
+  let line := after_nl dl ++ occ ++ upto_nl dr in
+  mem occ (o_exclude_match o) = false -> line_excluded line = false ->
+  let m := mk_ematch (line_of c (length dl)) (col_of c (length dl)) (length dl) (length dl + length occ) occ occ in
+  let h := {| t_line := line_of c (length dl); t_col := length (after_nl dl);
+              t_start := length dl; t_end := (length dl + length occ)%nat;
+              t_variant := occ; t_content := occ; t_replace := new;
+              t_before := line; t_after := after_nl dl ++ new ++ upto_nl dr; t_note := false |} in
+  hunk_of_match acr resolve coercion_fires coerce_variant compound_note line_excluded o vm c repl m = Some h /\
+  (forall ms, In m ms ->
+     In h (generate_hunks acr resolve coercion_fires coerce_variant compound_note line_excluded o vm c repl ms)) /\
+  apply_edits_rev c [edit_of_thunk h] = Ok (dl ++ new ++ dr).
+Proof. exact HunkTailP.standalone_hunk_any_context. Qed.
+
+(* with the delimiter contexts of C06_standalone the scanner's single match yields exactly this one hunk *)
+Theorem C06_standalone_plan : forall acr resolve coercion_fires coerce_variant compound_note coerce_auto repl
+         defaults amb S0 S1 S sw rw styles dl dr,
+  (forall container old new,
+     lower (strip_us_prefix container) = lower old -> coercion_fires container old new = false) ->
+  wf_acr acr = true -> visible S0 = true -> visible S1 = true -> visible S = true ->
+  (2 <= length sw)%nat -> rw <> [] -> all_neutral acr sw = true -> all_neutral acr rw = true ->
+  In S styles -> delims dl = true -> delims dr = true ->
+  let vm := variant_map_core acr defaults [] [] false amb (to_style acr sw S0) (to_style acr rw S1) (Some styles) in
+  let occ := to_style acr sw S in  let new := to_style acr rw S in
+  let c := dl ++ occ ++ dr in
+  let o := {| o_ignore_ambiguous := false; o_exclude_match := []; o_coerce_auto := coerce_auto |} in
+  let h := {| t_line := 1; t_col := length dl; t_start := length dl; t_end := (length dl + length occ)%nat;
+              t_variant := occ; t_content := occ; t_replace := new;
+              t_before := c; t_after := dl ++ new ++ dr; t_note := false |} in
+  exists m,
+    find_matches (keys vm) c = [m] /\
+    hunk_of_match acr resolve coercion_fires coerce_variant compound_note (fun _ => false) o vm c repl
+      (ematch_of_exact m) = Some h /\
+    generate_hunks acr resolve coercion_fires coerce_variant compound_note (fun _ => false) o vm c repl
+      (map ematch_of_exact (find_matches (keys vm) c)) = [h] /\
+    apply_edits_rev c [edit_of_thunk h] = Ok (dl ++ new ++ dr).
+Proof. exact HunkTailP.standalone_hunk_same_style. Qed.
+
+(* the match filters only ever drop hunks: what is listed is the kept matches, in order, with their own spans *)
+Theorem C06_hunks_are_kept_matches : forall acr resolve coercion_fires coerce_variant compound_note line_excluded o vm c repl h ms,
+  In h (generate_hunks acr resolve coercion_fires coerce_variant compound_note line_excluded o vm c repl ms) <->
+  exists m, In m ms /\ hunk_of_match acr resolve coercion_fires coerce_variant compound_note line_excluded o vm c repl m = Some h.
+Proof. exact HunkTailP.generate_hunks_In. Qed.
+
 (* --- second clause: whatever compatible style is chosen for an ambiguous occurrence ------------------- *)
 (* the first letter keeps its case *)
 Theorem C06_first_upper_kept : forall acr text S rw,
@@ -99,6 +173,10 @@ Theorem C06_all_upper_styles : forall acr text S c1 c2 rest,
   upper_style S = true.
 Proof. exact ConstraintsP.compatible_all_upper. Qed.
 
+Print Assumptions C06_visible_unambiguous.
+Print Assumptions C06_standalone_hunk.
+Print Assumptions C06_standalone_plan.
+Print Assumptions C06_hunks_are_kept_matches.
 Print Assumptions C06_standalone.
 Print Assumptions C06_first_upper_kept.
 Print Assumptions C06_first_lower_kept.
